@@ -1047,22 +1047,40 @@ pub fn run_c14(ctx: &Ctx) -> i32 {
         let hi = gen::smax(bps) as i64;
         let Ok(si) = StreamInfo::new(44100, channels, bps) else { return };
         let steps = 3 + rng.usize_below(5);
+        // a step is a fill of `len` samples, optionally preceded by a resize of both buffers
         let mut lens = vec![];
+        let mut resizes: Vec<Option<usize>> = vec![];
+        let mut cur = cap;
         for _ in 0..steps {
+            let rs = if rng.chance(1, 5) { Some(*rng.pick(&[32usize, 40, 64, 100, 150, 257, 300])) } else { None };
+            if let Some(r) = rs {
+                cur = r;
+            }
+            resizes.push(rs);
             lens.push(match rng.usize_below(6) {
-                0 => cap + 1 + rng.usize_below(40),
+                0 => cur + 1 + rng.usize_below(40),
                 1 => 0,
-                2 => cap,
-                _ => rng.usize_below(cap + 1),
+                2 => cur,
+                _ => rng.usize_below(cur + 1),
             });
         }
-        let desc = json!({"channels": channels, "bps": bps, "capacity": cap, "fill_lengths": lens});
+        let desc = json!({"channels": channels, "bps": bps, "capacity": cap, "fill_lengths": lens, "resize_before_fill": resizes});
         let r = catch(|| -> Result<(u64, u64), String> {
             let mut ti = (FrameBuf::with_size(channels, cap).map_err(|e| format!("{e}"))?, Context::new(bps, channels));
             let mut tb = (FrameBuf::with_size(channels, cap).map_err(|e| format!("{e}"))?, Context::new(bps, channels));
             let (mut refused, mut accepted) = (0u64, 0u64);
             let mut expect_total = 0usize;
+            let mut cap = cap;
+            let mut viewable = true;
             for (step, len) in lens.iter().enumerate() {
+                if let Some(r) = resizes[step] {
+                    ti.0.resize(r);
+                    tb.0.resize(r);
+                    cap = r;
+                    // `resize` keeps the old fill count; the buffer is only looked at again after
+                    // the next accepted fill (a stale count is outside this property)
+                    viewable = false;
+                }
                 let data: Vec<i32> = (0..len * channels).map(|_| match rng.usize_below(5) { 0 => lo as i32, 1 => hi as i32, _ => rng.range(lo, hi) as i32 }).collect();
                 let by = gen::to_le_bytes(&data, bytes);
                 let ri = ti.fill_interleaved(&data);
@@ -1073,6 +1091,7 @@ pub fn run_c14(ctx: &Ctx) -> i32 {
                 if ri.is_ok() {
                     accepted += 1;
                     expect_total += len;
+                    viewable = true;
                 } else {
                     refused += 1;
                 }
@@ -1088,7 +1107,7 @@ pub fn run_c14(ctx: &Ctx) -> i32 {
                 if ti.1.total_samples() != expect_total {
                     return Err(format!("step {step}: Context counts {} samples, {} were accepted", ti.1.total_samples(), expect_total));
                 }
-                if ti.0.filled_size() > 0 {
+                if viewable && ti.0.filled_size() > 0 {
                     let vi = buffer_view(&vcfg, &ti.0, &si)?;
                     let vb = buffer_view(&vcfg, &tb.0, &si)?;
                     if vi != vb {
